@@ -120,3 +120,32 @@ def corpus(pid):
 
 def content_of(prog):
     return content.program_content(prog)
+
+
+class Timeout(Exception):
+    pass
+
+
+class time_limit:
+    """Bound one call by wall-clock time (main thread only).  Firing is an
+    observation ('inconclusive for this call'), never a verdict."""
+
+    def __init__(self, seconds):
+        self.seconds = seconds
+
+    def __enter__(self):
+        import signal
+
+        def handler(signum, frame):
+            raise Timeout()
+
+        self._old = signal.signal(signal.SIGALRM, handler)
+        signal.setitimer(signal.ITIMER_REAL, self.seconds)
+        return self
+
+    def __exit__(self, *a):
+        import signal
+
+        signal.setitimer(signal.ITIMER_REAL, 0)
+        signal.signal(signal.SIGALRM, self._old)
+        return False
